@@ -51,20 +51,33 @@ BlankState == [content |-> <<>>, fetchers |-> <<>>, msgs |-> <<>>]
 
 When(cond, name) == IF cond THEN {name} ELSE {}
 
+\* a network-wide read was served in this step (the fall-back after a failed direct fetch): the copy is stored like a fetched one
+NetRead(e) == e.ev \in {"Deliver", "Drop"} /\ "netreads" \in DOMAIN e /\ Len(e.netreads) > 0
 \* the observed step in the form the clauses of Network.tla take
 StepOf(e) ==
     LET before == ContentOf(prev)  after == ContentOf(e.state) IN
-    [ev |-> IF e.ev = "Deliver" THEN (IF e.m.k = "adv" THEN "DeliverAdv" ELSE IF e.m.k = "qry" THEN "DeliverQry" ELSE "DeliverRsp") ELSE e.ev,
-     n |-> IF e.ev \in {"Update", "Interval", "Expire"} THEN e.node ELSE IF e.ev = "Deliver" THEN e.m.to ELSE 1,
-     a |-> IF e.ev = "Update" THEN e.a ELSE IF e.ev = "Deliver" /\ e.m.k # "adv" THEN e.m.a ELSE 1,
+    [ev |-> IF NetRead(e) THEN "DeliverRsp"
+            ELSE IF e.ev = "Deliver" THEN (IF e.m.k = "adv" THEN "DeliverAdv" ELSE IF e.m.k = "qry" THEN "DeliverQry" ELSE "DeliverRsp") ELSE e.ev,
+     n |-> IF NetRead(e) THEN e.netreads[1].node
+           ELSE IF e.ev \in {"Update", "Interval", "Expire"} THEN e.node ELSE IF e.ev = "Deliver" THEN e.m.to ELSE 1,
+     a |-> IF NetRead(e) THEN e.netreads[1].a
+           ELSE IF e.ev = "Update" THEN e.a ELSE IF e.ev = "Deliver" /\ e.m.k # "adv" THEN e.m.a ELSE 1,
      before |-> before, after |-> after,
-     input |-> IF e.ev = "Update" THEN Content(e.input) ELSE IF e.ev = "Deliver" /\ e.m.k = "rsp" THEN Content(e.m.c) ELSE NoneC,
+     input |-> IF NetRead(e) THEN Content(e.netreads[1].c)
+               ELSE IF e.ev = "Update" THEN Content(e.input) ELSE IF e.ev = "Deliver" /\ e.m.k = "rsp" THEN Content(e.m.c) ELSE NoneC,
      sent |-> SentOf(e), active |-> Active]
 
 \* byte-identical copies of immutable data: a chunk that arrived through replication has the bytes of the copy sent
 ChunkBytesDiffer(e) ==
     e.ev = "Deliver" /\ e.m.k = "rsp" /\ e.m.c.kind = "chunk" /\ e.m.a \in Used
       /\ e.state.content[e.m.to][e.m.a].kind = "chunk" /\ e.state.content[e.m.to][e.m.a].bytes # e.m.c.bytes
+
+\* C08 at node level, "every fetch leaves the in-flight set when the record arrives": once the holder's answer for
+\* address a has been handed to the requester, no fetch of that version from that holder is in flight there any more
+\* (whether or not the copy changed what the requester holds)
+ArrivedStillInFlight(e) ==
+    e.ev = "Deliver" /\ e.m.k = "rsp" /\ e.m.c.kind \notin {"none", "unknown"}
+      /\ \E y \in FetcherOf(e.state)[e.m.to].og : y.k = e.m.a /\ y.h = e.m.from /\ y.t = TypeNo(e.m.c)
 
 \* the model's fetcher state of node n before the step: observed queue / in-flight set + the expiries the trace caused
 ModelF(n) == [tf |-> FetcherOf(prev)[n].tf, tfx |-> {}, og |-> FetcherOf(prev)[n].og,
@@ -73,11 +86,11 @@ SameF(f, n, e) == f.tf = FetcherOf(e.state)[n].tf /\ f.og = FetcherOf(e.state)[n
 \* does the handler model explain what node n did in this step?
 Explained(e) ==
     LET x == StepOf(e)  n == x.n  cn == x.before[n] IN
-    CASE x.ev = "Update" -> \E r \in OnStore(cn, ModelF(n), n, x.a, x.input) : r.c = x.after[n] /\ SameF(r.f, n, e) /\ r.out = x.sent
+    CASE x.ev = "Update" -> \E r \in OnStore(cn, ModelF(n), n, x.a, x.input, FALSE) : r.c = x.after[n] /\ SameF(r.f, n, e) /\ r.out = x.sent
       [] x.ev = "Interval" -> {m \in Advertise(cn, n) : m.to \in Active} = x.sent
       [] x.ev = "DeliverAdv" -> \E r \in OnAdv(cn, ModelF(n), n, e.m.holder, MsgOf(e.m).keys) : SameF(r.f, n, e) /\ r.out = x.sent
       [] x.ev = "DeliverQry" -> {OnQry(cn, n, e.m.from, x.a)} = x.sent
-      [] x.ev = "DeliverRsp" -> \E r \in OnStore(cn, ModelF(n), n, x.a, x.input) : r.c = x.after[n] /\ SameF(r.f, n, e) /\ r.out = x.sent
+      [] x.ev = "DeliverRsp" -> \E r \in OnStore(cn, ModelF(n), n, x.a, x.input, TRUE) : r.c = x.after[n] /\ SameF(r.f, n, e) /\ r.out = x.sent
       [] OTHER -> TRUE
 
 ConvergeFalsified(e) ==
@@ -98,7 +111,8 @@ Next ==
             /\ UNCHANGED <<viol, known, drift, stats>>
        ELSE IF e.ev \in {"Update", "Interval", "Deliver", "Drop", "Expire", "Settle", "Skipped"} THEN
             LET x == StepOf(e)
-                f == StepFalsified(x) \cup When(ChunkBytesDiffer(e), "C09_AcceptHeld") IN
+                f == StepFalsified(x) \cup When(ChunkBytesDiffer(e), "C09_AcceptHeld")
+                                      \cup When(ArrivedStillInFlight(e), "C08_LeavesInFlight") IN
             /\ viol' = viol \cup {[clause |-> c, line |-> l] : c \in f}
             /\ drift' = IF Explained(e) THEN drift ELSE drift \cup {l}
             /\ prev' = e.state
